@@ -7,8 +7,9 @@ package utf8
 //@ pure func correctSpec(src text, repl text) text
 //@ func Validate assumed "wrapper of native validate_utf8_fast: a function of the bytes"
 //@   ensures result == validSpec(txt(src))
+//@   ensures len(src) == 0 ==> result
 //@ func CorrectWith assumed "append loop around native validate_utf8; ownership facts only (loop not yet under contract)"
 //@   modifies dst[_]
 //@   ensures base(result) == base(dst) || fresh(result)
-//@   ensures base(result) != 0
+//@   ensures (len(src) > 0 || base(dst) != 0) ==> base(result) != 0
 //@   ensures len(dst) == 0 ==> txt(result) == correctSpec(txt(src), txt(repl))
